@@ -66,6 +66,8 @@ impl Lexeme {
 /// Text writer that records lexemes and statement facts.
 #[derive(Default, Clone)]
 struct Tw {
+    /// Windows line endings: every "\n" pushed as plain text becomes "\r\n"
+    crlf: bool,
     s: String,
     lexemes: Vec<Lexeme>,
     /// tear positions inside exponent floats that leave `…e` or `…e+`: (position, lexeme index)
@@ -74,7 +76,11 @@ struct Tw {
 
 impl Tw {
     fn push(&mut self, t: &str) {
-        self.s.push_str(t);
+        if self.crlf && t.contains('\n') {
+            self.s.push_str(&t.replace('\n', "\r\n"));
+        } else {
+            self.s.push_str(t);
+        }
     }
     fn lexeme(&mut self, class: &'static str, t: &str) {
         let start = self.s.len();
@@ -164,6 +170,7 @@ struct Swarm {
     stdgates: bool,
     misc: bool,
     big: bool,
+    crlf: bool,
 }
 
 struct LogicalFile {
@@ -227,7 +234,7 @@ impl<'a> G<'a> {
     fn var_name(&mut self, prefix: &str) -> String {
         if self.sw.colliding_names && self.r.chance(1, 10) {
             self.collided = true;
-            self.r.pick_str(&["a", "b", "x1", "tmp"]).to_string()
+            self.r.pick_str(&["a", "b", "x1", "tmp", "h", "s", "cx", "id"]).to_string()
         } else {
             self.collided = false;
             self.fresh(prefix)
@@ -572,6 +579,10 @@ impl<'a> G<'a> {
                 let np = 1 + self.r.below(2);
                 let ps: Vec<String> = (0..np).map(|i| format!("int[32] k{}", i)).collect();
                 w.push(&format!("def {}({}) -> int[32] {{ ", n, ps.join(", ")));
+                if self.sw.nested_includes && self.r.chance(1, 8) {
+                    self.nested_include(w, file);
+                    w.push(" ");
+                }
                 if self.r.chance(1, 3) {
                     w.push("int[32] t = k0 + 1; return t; ");
                 } else {
@@ -1015,10 +1026,13 @@ impl<'a> G<'a> {
 
     /// Generate the body of logical file `i` (or the main text when `i == usize::MAX`).
     fn gen_file(&mut self, i: usize, is_main: bool) {
-        let mut w = Tw::default();
+        let mut w = Tw {
+            crlf: self.sw.crlf && self.r.chance(2, 3),
+            ..Default::default()
+        };
         let mut meta = FileMeta::default();
         let file_ix = i;
-        if is_main && self.r.chance(1, 4) {
+        if (is_main && self.r.chance(1, 4)) || (!is_main && self.sw.literals_rich && self.r.chance(1, 10)) {
             w.lexeme("version", self.r.pick_str(&["OPENQASM 3.0", "OPENQASM 3", "OPENQASM 3.1"]));
             w.push(";\n");
         }
@@ -1168,6 +1182,7 @@ fn draw_swarm(r: &mut Rng, profile: Profile) -> Swarm {
         stdgates: r.chance(1, 2),
         misc: r.chance(1, 2),
         big: r.chance(1, 10),
+        crlf: r.chance(1, 8),
     }
 }
 
@@ -1616,26 +1631,55 @@ fn static_damage(r: &mut Rng, g: &mut Generated, profile: Profile) -> Option<&'s
             let text = String::from_utf8(bytes.clone()).ok()?;
             let starts: Vec<usize> = w.meta.get(&path).map(|m| m.stmt_starts.clone()).unwrap_or_default();
             let mut t = text.clone();
+            // (junk, class of the malformed lexeme it contains, offset of that lexeme in the junk)
+            // A class is given only where the lexeme is malformed whatever follows it.
+            const JUNK: &[(&str, Option<&str>, usize)] = &[
+                (" 0x ", Some("garbage_prefixed_int"), 1),
+                (" 0b; ", Some("garbage_prefixed_int"), 1),
+                (" 1e ", Some("garbage_exponent_float"), 1),
+                (" 2.5e+ ", Some("garbage_exponent_float"), 1),
+                (" x🙂y ", Some("garbage_invalid_ident"), 1),
+                (" $🙂 ", Some("garbage_invalid_ident"), 1),
+                (" #foo ", Some("garbage_invalid_ident"), 1),
+                (" us🇺🇸 ", Some("garbage_invalid_ident"), 1),
+                (" 🏽gate ", Some("garbage_invalid_ident"), 1),
+                (" k❤ ", Some("garbage_invalid_ident"), 1),
+                (" \"open ", None, 0),
+                (" /* open ", None, 0),
+                (" é€§ ", None, 0),
+                (" \"é\\q\"; ", None, 0),
+                (" \"\\x\"; ", None, 0),
+                (" \"ab\\u{110000}\"; ", None, 0),
+                (" \"\r\né\\q\"; ", None, 0),
+                (" \"a\r\n\r\n☃\\x\"; ", None, 0),
+            ];
             let n = 1 + r.below(2);
             let mut first_at = 0;
+            let mut g3: Option<(String, usize)> = None;
             for k in 0..n {
                 let at = if starts.is_empty() { t.len() } else { *r.pick(&starts) };
                 let at = at.min(t.len());
                 if !t.is_char_boundary(at) {
                     continue;
                 }
-                let junk = r.pick_str(&[" 0x ", " 1e ", " x🙂y ", " \"open ", " $🙂 ", " #foo ", " é€§ ", " 0b; ", " 2.5e+ ", " /* open "]);
+                let (junk, class, off) = *r.pick(JUNK);
                 t.insert_str(at, junk);
                 if k == 0 {
                     first_at = at;
+                    // only for a pristine file: the insertion point is then a statement start
+                    if n == 1 && !starts.is_empty() && !w.damage.iter().any(|d| d.path == path) {
+                        g3 = class.map(|c| (c.to_string(), at + off));
+                    }
                 }
             }
             if t == text {
                 return None;
             }
+            // the record is only kept if the pristine text tokenises cleanly around the spot
+            // (the insertion point is a statement start, never inside a comment or string)
             w.nodes.insert(path.clone(), Node::File(t.into_bytes()));
             w.meta.remove(&path);
-            w.damage.push(Damage { path, kind: "garbage".into(), at: first_at, g3: None });
+            w.damage.push(Damage { path, kind: "garbage".into(), at: first_at, g3 });
             Some("garbage")
         }
         "zero_tail" => {
